@@ -72,6 +72,14 @@ Section AssocFacts.
       + constructor; [|apply IH; exact Hnd'].
         intros Hin. apply set_keys_in in Hin. destruct Hin; [congruence|contradiction].
   Qed.
+  Lemma set_set l k a b : set (set l k a) k b = set l k b.
+  Proof.
+    induction l as [|[k' a'] t IH]; cbn [set].
+    - rewrite N.eqb_refl. reflexivity.
+    - destruct (N.eqb_spec k k') as [->|Hn]; cbn [set].
+      + rewrite N.eqb_refl. reflexivity.
+      + destruct (N.eqb_spec k k'); [contradiction|]. rewrite IH. reflexivity.
+  Qed.
 End AssocFacts.
 
 (* ------------------------------------------------------------------ slices of the log *)
@@ -244,4 +252,467 @@ Proof.
     assert (Hl : log (write1 v s) = log s ++ [v]) by (change (c_log (proj (write1 v s)) = log s ++ [v]); rewrite H; reflexivity).
     rewrite Hl, H. unfold with_log. cbn [c_fixed c_cap c_alive c_closed c_taint c_pdrop c_rxs proj].
     rewrite <- app_assoc. reflexivity.
+Qed.
+
+(* ------------------------------------------------------------------ what a receiver obtained *)
+Fixpoint vals_of (r : N) (o : out) : list N :=
+  match o with
+  | OVal r' v => if N.eqb r' r then [v] else []
+  | OVals r' vs => if N.eqb r' r then vs else []
+  | OReady o' => vals_of r o'
+  | _ => []
+  end.
+
+Definition recvd (r : N) (outs : list out) : list N := flat_map (vals_of r) outs.
+Definition quiet (o : out) : Prop := forall r, vals_of r o = [].
+
+Lemma recvd_snoc r outs o : recvd r (outs ++ [o]) = recvd r outs ++ vals_of r o.
+Proof. unfold recvd. rewrite flat_map_app. cbn [flat_map]. rewrite app_nil_r. reflexivity. Qed.
+
+(* ------------------------------------------------------------------ transition shapes on the core *)
+Definition c_get (c : core) (r : N) : option rx := get (c_rxs c) r.
+
+Definition rx_upd_ok (fixed : bool) (x x' : rx) : Prop :=
+  r_cur x' = r_cur x /\ r_start x' = r_start x /\
+  (   (r_reg x' = false /\ r_closed x' = true /\ r_taint x' = r_taint x)
+   \/ (r_reg x' = r_reg x /\ r_closed x' = r_closed x /\ r_taint x' = r_taint x /\
+       (r_live x' = true \/ r_closed x = true))
+   \/ (fixed = false /\ r_reg x' = r_reg x /\ r_closed x' = false /\ r_live x' = true /\
+       r_taint x' = (r_taint x || r_closed x))).
+
+Definition clone_ok (fixed : bool) (x xc : rx) : Prop :=
+  r_cur xc = r_cur x /\ r_start xc = r_cur x /\ r_live xc = true /\
+  (   (r_reg xc = true /\ r_closed xc = false /\ r_taint xc = (r_taint x || negb (r_reg x)) /\
+       (fixed = false \/ r_closed x = false))
+   \/ (fixed = true /\ r_closed x = true /\ r_reg xc = false /\ r_closed xc = true /\ r_taint xc = r_taint x)).
+
+Definition sender_ok (c : core) (a cl t pd : bool) : Prop :=
+  c_alive c = true /\
+  (   (c_closed c = false /\ a = true /\ cl = true /\ t = c_taint c /\ pd = true)
+   \/ (a = false /\ cl = true /\ t = c_taint c /\ (pd = true \/ (c_closed c = true /\ pd = c_pdrop c)))
+   \/ (c_fixed c = false /\ a = true /\ cl = false /\ t = (c_taint c || c_closed c) /\ pd = c_pdrop c)).
+
+Inductive shape (c : core) (o : out) : core -> Prop :=
+| Sh_same : quiet o -> shape c o c
+| Sh_send vs sp : quiet o -> c_space c = Some sp -> lenN vs <= sp -> c_alive c = true -> c_closed c = false ->
+    shape c o (with_log c (c_log c ++ vs))
+| Sh_recv r x k : c_get c r = Some x -> r_closed x = false ->
+    r_cur x + k <= c_head c ->
+    vals_of r o = map (c_slot_val c) (seqN (r_cur x) (N.to_nat k)) ->
+    (forall r', r' <> r -> vals_of r' o = []) ->
+    shape c o (with_rxs c (set (c_rxs c) r (adv x k)))
+| Sh_rx_upd r x x' : quiet o -> c_get c r = Some x -> r_live x = true -> rx_upd_ok (c_fixed c) x x' ->
+    shape c o (with_rxs c (set (c_rxs c) r x'))
+| Sh_clone r x cid xc : quiet o -> c_get c r = Some x -> r_live x = true -> c_get c cid = None ->
+    clone_ok (c_fixed c) x xc ->
+    shape c o (with_rxs c (set (c_rxs c) cid xc))
+| Sh_sender a cl t pd : quiet o -> sender_ok c a cl t pd -> shape c o (with_sender c a cl t pd).
+
+Lemma with_log_same c : with_log c (c_log c) = c.
+Proof. destruct c; reflexivity. Qed.
+
+(* ---- primitive specs *)
+Lemma try_send_core_spec v s s' res :
+  try_send_core v s = (s', res) ->
+  match res with
+  | SOk => proj s' = with_log (proj s) (log s ++ [v]) /\ exists sp, c_space (proj s) = Some sp /\ 1 <= sp
+  | SFull => s' = s /\ exists m, minl (cursors s) = Some m /\ cap s <= head s - m
+  | SClosedR => s' = s /\ minl (cursors s) = None
+  end.
+Proof.
+  unfold try_send_core. destruct (minl (cursors s)) as [m|] eqn:Em.
+  - destruct (N.leb_spec (cap s) (head s - m)) as [Hle|Hlt]; intros H; inversion H; subst.
+    + split; [reflexivity|]. exists m. split; [reflexivity|exact Hle].
+    + split; [apply proj_write1|].
+      unfold c_space. change (c_cursors (proj s)) with (cursors s). rewrite Em.
+      eexists. split; [reflexivity|]. change (c_head (proj s)) with (head s). cbn [c_cap proj]. lia.
+  - intros H; inversion H; subst. split; reflexivity.
+Qed.
+
+Lemma firstnN_len {A} k (l : list A) : lenN (firstnN k l) = N.min k (lenN l).
+Proof. unfold lenN, firstnN. rewrite firstn_length. lia. Qed.
+
+Lemma firstnN_skipnN {A} k (l : list A) : firstnN k l ++ skipnN k l = l.
+Proof. apply firstn_skipn. Qed.
+
+Lemma send_some_spec vs s :
+  match send_some vs s with
+  | None => c_space (proj s) = None
+  | Some (s', k, rest) =>
+      exists sp, c_space (proj s) = Some sp /\ k = N.min sp (lenN vs) /\
+                 rest = skipnN k vs /\
+                 proj s' = with_log (proj s) (log s ++ firstnN k vs)
+  end.
+Proof.
+  unfold send_some. rewrite space_proj. destruct (c_space (proj s)) as [sp|]; [|reflexivity].
+  exists sp. split; [reflexivity|]. split; [reflexivity|]. split; [reflexivity|]. apply proj_write_many.
+Qed.
+
+Lemma slot_index_window c i :
+  i < c_head c -> c_head c <= i + c_cap c -> c_slot_index c i = i.
+Proof.
+  intros H1 H2. unfold c_slot_index.
+  assert (Hc : c_cap c <> 0) by lia.
+  rewrite N.div_small by lia. lia.
+Qed.
+
+Lemma in_window_spec s t : in_window s t = true <-> t < head s /\ head s <= t + cap s.
+Proof. unfold in_window. rewrite andb_true_iff, N.ltb_lt, N.leb_le. tauto. Qed.
+
+Lemma try_recv_core_spec r x s s' res :
+  try_recv_core r x s = (s', res) ->
+  match res with
+  | RVal v => proj s' = with_rxs (proj s) (set (rxs s) r (adv x 1)) /\ r_cur x + 1 <= head s /\
+              v = c_slot_val (proj s) (r_cur x) /\ in_window s (r_cur x) = true
+  | REmpty => s' = s /\ in_window s (r_cur x) = false /\ (pdrop s = false \/ r_cur x < head s)
+  | RDisc => s' = s /\ pdrop s = true /\ head s <= r_cur x
+  end.
+Proof.
+  unfold try_recv_core. destruct (in_window s (r_cur x)) eqn:Ew.
+  - intros H; inversion H; subst. apply in_window_spec in Ew.
+    rewrite proj_wake_producer, proj_add_drops.
+    split; [reflexivity|]. split; [lia|]. split; [|reflexivity].
+    unfold c_slot_val. rewrite slot_index_window; [reflexivity| |]; cbn [c_head c_cap c_log proj]; tauto.
+  - destruct (pdrop s) eqn:Ep; cbn [andb].
+    + destruct (N.leb_spec (head s) (r_cur x)) as [Hle|Hlt]; intros H; inversion H; subst; auto.
+    + intros H; inversion H; subst. auto.
+Qed.
+
+Lemma try_recv_batch_core_spec r x n s s' res :
+  try_recv_batch_core r x n s = (s', res) ->
+  match res with
+  | BVals vs => exists k, proj s' = with_rxs (proj s) (set (rxs s) r (adv x k)) /\ r_cur x + k <= head s /\
+                k = N.min (head s - r_cur x) n /\ r_cur x < head s /\
+                vs = map (c_slot_val (proj s)) (seqN (r_cur x) (N.to_nat k))
+  | BEmpty => s' = s /\ head s <= r_cur x /\ pdrop s = false
+  | BDisc => s' = s /\ head s <= r_cur x /\ pdrop s = true
+  end.
+Proof.
+  unfold try_recv_batch_core. destruct (N.leb_spec (head s) (r_cur x)) as [Hle|Hlt].
+  - destruct (pdrop s) eqn:Ep; intros H; inversion H; subst; auto.
+  - intros H; inversion H; subst. eexists. rewrite proj_wake_producer, proj_add_drops.
+    split; [reflexivity|]. split; [lia|]. split; [reflexivity|]. split; [exact Hlt|]. reflexivity.
+Qed.
+
+(* ------------------------------------------------------------------ every step has one of the shapes *)
+Lemma shape_ext c o o' c' : (forall r, vals_of r o' = vals_of r o) -> shape c o c' -> shape c o' c'.
+Proof.
+  intros He H. destruct H.
+  - apply Sh_same. intros r. rewrite He. apply H.
+  - eapply Sh_send; eauto. intros r. rewrite He. apply H.
+  - eapply Sh_recv; eauto.
+    + rewrite He. assumption.
+    + intros r' Hr. rewrite He. auto.
+  - eapply Sh_rx_upd; eauto. intros r0. rewrite He. apply H.
+  - eapply Sh_clone; eauto. intros r0. rewrite He. apply H.
+  - eapply Sh_sender; eauto. intros r0. rewrite He. apply H.
+Qed.
+
+Lemma vals_of_OVal_eq r v : vals_of r (OVal r v) = [v].
+Proof. cbn [vals_of]. rewrite N.eqb_refl. reflexivity. Qed.
+Lemma vals_of_OVal_neq r r' v : r' <> r -> vals_of r' (OVal r v) = [].
+Proof. intros H. cbn [vals_of]. destruct (N.eqb_spec r r'); [congruence|reflexivity]. Qed.
+Lemma vals_of_OVals_eq r vs : vals_of r (OVals r vs) = vs.
+Proof. cbn [vals_of]. rewrite N.eqb_refl. reflexivity. Qed.
+Lemma vals_of_OVals_neq r r' vs : r' <> r -> vals_of r' (OVals r vs) = [].
+Proof. intros H. cbn [vals_of]. destruct (N.eqb_spec r r'); [congruence|reflexivity]. Qed.
+
+Ltac quiet_tac := let r := fresh in intros r; cbn [vals_of]; try reflexivity; destruct (N.eqb _ _); reflexivity.
+Ltac same_tac := apply Sh_same; quiet_tac.
+
+Lemma recv_shape r x s s' res on_empty :
+  get (rxs s) r = Some x -> r_closed x = false ->
+  try_recv_core r x s = (s', res) -> quiet on_empty ->
+  shape (proj s) (out_of_rres r res on_empty) (proj s').
+Proof.
+  intros Hg Hc H Hq. apply try_recv_core_spec in H. destruct res as [v| |]; cbn [out_of_rres].
+  - destruct H as (Hp & Hb & Hv & _). rewrite Hp.
+    change (rxs s) with (c_rxs (proj s)).
+    eapply Sh_recv with (k := 1); eauto.
+    + rewrite vals_of_OVal_eq. cbn [N.to_nat Pos.to_nat Pos.iter_op seqN map]. subst v. reflexivity.
+    + intros r' Hr. apply vals_of_OVal_neq. exact Hr.
+  - destruct H as (-> & _). apply Sh_same. exact Hq.
+  - destruct H as (-> & _). same_tac.
+Qed.
+
+Lemma recv_batch_shape r x n s s' res on_empty :
+  get (rxs s) r = Some x -> r_closed x = false ->
+  try_recv_batch_core r x n s = (s', res) -> quiet on_empty ->
+  shape (proj s) (out_of_bres r res on_empty) (proj s').
+Proof.
+  intros Hg Hc H Hq. apply try_recv_batch_core_spec in H. destruct res as [vs| |]; cbn [out_of_bres].
+  - destruct H as (k & Hp & Hb & _ & _ & Hv). rewrite Hp.
+    change (rxs s) with (c_rxs (proj s)).
+    eapply Sh_recv with (k := k); eauto.
+    + rewrite vals_of_OVals_eq. exact Hv.
+    + intros r' Hr. apply vals_of_OVals_neq. exact Hr.
+  - destruct H as (-> & _). apply Sh_same. exact Hq.
+  - destruct H as (-> & _). same_tac.
+Qed.
+
+Lemma send1_shape v s s' res o :
+  s_alive s = true -> s_closed s = false -> quiet o ->
+  try_send_core v s = (s', res) -> shape (proj s) o (proj s').
+Proof.
+  intros Ha Hc Hq H. apply try_send_core_spec in H. destruct res.
+  - destruct H as (Hp & sp & Hs & Hle). rewrite Hp.
+    change (log s) with (c_log (proj s)). eapply Sh_send; eauto.
+  - destruct H as (-> & _). apply Sh_same. exact Hq.
+  - destruct H as (-> & _). apply Sh_same. exact Hq.
+Qed.
+
+Lemma send_some_shape vs s s' k rest o :
+  s_alive s = true -> s_closed s = false -> quiet o ->
+  send_some vs s = Some (s', k, rest) -> shape (proj s) o (proj s').
+Proof.
+  intros Ha Hc Hq H. pose proof (send_some_spec vs s) as Hs. rewrite H in Hs.
+  destruct Hs as (sp & Hsp & Hk & _ & Hp). rewrite Hp.
+  change (log s) with (c_log (proj s)). eapply Sh_send; eauto.
+  rewrite firstnN_len. lia.
+Qed.
+
+Lemma with_rx_inv s r k s' o :
+  with_rx s r k = (s', o) ->
+  (s' = s /\ o = ONA) \/ exists x, get (rxs s) r = Some x /\ r_live x = true /\ k x = (s', o).
+Proof.
+  unfold with_rx. destruct (get (rxs s) r) as [x|] eqn:E.
+  - destruct (r_live x) eqn:El; intros H.
+    + right. eauto.
+    + inversion H. left. auto.
+  - intros H. inversion H. left. auto.
+Qed.
+
+Ltac pinv H := inversion H; subst; clear H.
+
+Lemma new_fut_shape s f k s' o : new_fut s f k = (s', o) -> shape (proj s) o (proj s').
+Proof.
+  unfold new_fut. destruct (get (futs s) f); intros H; pinv H; same_tac.
+Qed.
+
+Lemma poll_shape s f x w s' o : poll_fut s f x w = (s', o) -> shape (proj s) o (proj s').
+Proof.
+  unfold poll_fut. destruct (f_kind x) as [r|r n|v|rest sent total|rest sent].
+  - destruct (get (rxs s) r) as [y|] eqn:Eg; [|intros H; pinv H; same_tac].
+    destruct (r_closed y) eqn:Ec; [intros H; pinv H; rewrite proj_kill; same_tac|].
+    destruct (try_recv_core r y s) as [s1 res] eqn:Et.
+    pose proof (recv_shape r y s s1 res OPending Eg Ec Et ltac:(quiet_tac)) as Hs.
+    destruct res; intros H; pinv H; rewrite ?proj_kill, ?proj_pend, ?proj_register;
+      (eapply shape_ext; [|exact Hs]); intros r0; reflexivity.
+  - destruct (get (rxs s) r) as [y|] eqn:Eg; [|intros H; pinv H; same_tac].
+    destruct (r_closed y) eqn:Ec; [intros H; pinv H; rewrite proj_kill; same_tac|].
+    destruct (N.eqb n 0); [intros H; pinv H; rewrite proj_kill; same_tac|].
+    destruct (try_recv_batch_core r y n s) as [s1 res] eqn:Et.
+    pose proof (recv_batch_shape r y n s s1 res OPending Eg Ec Et ltac:(quiet_tac)) as Hs.
+    destruct res; intros H; pinv H; rewrite ?proj_kill, ?proj_pend, ?proj_register;
+      (eapply shape_ext; [|exact Hs]); intros r0; reflexivity.
+  - destruct (s_alive s) eqn:Ea; cbn [negb]; [|intros H; pinv H; same_tac].
+    destruct (s_closed s) eqn:Ec; [intros H; pinv H; rewrite proj_add_drops, proj_kill; same_tac|].
+    destruct (try_send_core v s) as [s1 res] eqn:Et.
+    pose proof (send1_shape v s s1 res OOk Ea Ec ltac:(quiet_tac) Et) as Hs.
+    destruct res; intros H; pinv H;
+      rewrite ?proj_add_drops, ?proj_kill, ?proj_pend, ?proj_reg_producer;
+      (eapply shape_ext; [|exact Hs]); intros r0; reflexivity.
+  - destruct (s_alive s) eqn:Ea; cbn [negb]; [|intros H; pinv H; same_tac].
+    destruct (N.eqb sent total); [intros H; pinv H; rewrite proj_kill; same_tac|].
+    destruct (s_closed s) eqn:Ec; [intros H; pinv H; rewrite proj_add_drops, proj_kill; same_tac|].
+    destruct (send_some rest s) as [[[s1 k] rest']|] eqn:Es;
+      [|intros H; pinv H; rewrite proj_add_drops, proj_kill; same_tac].
+    pose proof (send_some_shape rest s s1 k rest' OOk Ea Ec ltac:(quiet_tac) Es) as Hs.
+    destruct (N.eqb (sent + k) total); intros H; pinv H;
+      rewrite ?proj_add_drops, ?proj_kill, ?proj_pend, ?proj_reg_producer;
+      (eapply shape_ext; [|exact Hs]); intros r0; reflexivity.
+  - destruct (s_alive s) eqn:Ea; cbn [negb]; [|intros H; pinv H; same_tac].
+    destruct rest as [|v0 rest0]; [intros H; pinv H; rewrite proj_kill; same_tac|].
+    destruct (s_closed s) eqn:Ec; [intros H; pinv H; rewrite proj_add_drops, proj_kill; same_tac|].
+    destruct (send_some (v0 :: rest0) s) as [[[s1 k] rest']|] eqn:Es;
+      [|intros H; pinv H; rewrite proj_add_drops, proj_kill; same_tac].
+    pose proof (send_some_shape (v0 :: rest0) s s1 k rest' OOk Ea Ec ltac:(quiet_tac) Es) as Hs.
+    destruct rest'; intros H; pinv H;
+      rewrite ?proj_add_drops, ?proj_kill, ?proj_pend, ?proj_reg_producer;
+      (eapply shape_ext; [|exact Hs]); intros r0; reflexivity.
+Qed.
+
+Lemma proj_release s : proj (release s) = proj s.
+Proof. unfold release. destruct (all_dead s); reflexivity. Qed.
+
+Lemma proj_set_rx s r x : proj (set_rx s r x) = with_rxs (proj s) (set (rxs s) r x).
+Proof. reflexivity. Qed.
+
+Lemma step_shape s op s' o : step s op = (s', o) -> shape (proj s) o (proj s').
+Proof.
+  destruct op; cbn [step].
+  - (* TrySend *)
+    destruct (s_alive s) eqn:Ea; cbn [negb]; [|intros H; pinv H; same_tac].
+    destruct (s_closed s) eqn:Ec; [intros H; pinv H; same_tac|].
+    destruct (try_send_core v s) as [s1 res] eqn:Et.
+    pose proof (send1_shape v s s1 res OOk Ea Ec ltac:(quiet_tac) Et) as Hs.
+    destruct res; intros H; pinv H; rewrite ?proj_add_drops; (eapply shape_ext; [|exact Hs]); quiet_tac.
+  - (* Send *)
+    destruct (s_alive s) eqn:Ea; cbn [negb orb]; [|intros H; pinv H; same_tac].
+    destruct (s_async s); [intros H; pinv H; same_tac|].
+    destruct (s_closed s) eqn:Ec; [intros H; pinv H; same_tac|].
+    destruct (try_send_core v s) as [s1 res] eqn:Et.
+    pose proof (send1_shape v s s1 res OOk Ea Ec ltac:(quiet_tac) Et) as Hs.
+    destruct res; intros H; pinv H; rewrite ?proj_add_drops; try same_tac; (eapply shape_ext; [|exact Hs]); quiet_tac.
+  - (* TrySendB *)
+    destruct (s_alive s) eqn:Ea; cbn [negb]; [|intros H; pinv H; same_tac].
+    destruct vs as [|v0 vs0]; [intros H; pinv H; same_tac|].
+    destruct (s_closed s) eqn:Ec; [intros H; pinv H; same_tac|].
+    destruct (send_some (v0 :: vs0) s) as [[[s1 k] rest']|] eqn:Es; [|intros H; pinv H; same_tac].
+    pose proof (send_some_shape _ s s1 k rest' OOk Ea Ec ltac:(quiet_tac) Es) as Hs.
+    destruct rest'; intros H; pinv H; rewrite ?proj_add_drops; (eapply shape_ext; [|exact Hs]); quiet_tac.
+  - (* TrySendM *)
+    destruct (s_alive s) eqn:Ea; cbn [negb]; [|intros H; pinv H; same_tac].
+    destruct vs as [|v0 vs0]; [intros H; pinv H; same_tac|].
+    destruct (s_closed s) eqn:Ec; [intros H; pinv H; same_tac|].
+    destruct (send_some (v0 :: vs0) s) as [[[s1 k] rest']|] eqn:Es; [|intros H; pinv H; same_tac].
+    pose proof (send_some_shape _ s s1 k rest' OOk Ea Ec ltac:(quiet_tac) Es) as Hs.
+    intros H; pinv H; rewrite ?proj_add_drops; (eapply shape_ext; [|exact Hs]); quiet_tac.
+  - (* SendB *)
+    destruct (s_alive s) eqn:Ea; cbn [negb orb]; [|intros H; pinv H; same_tac].
+    destruct (s_async s); [intros H; pinv H; same_tac|].
+    destruct vs as [|v0 vs0]; [intros H; pinv H; same_tac|].
+    destruct (s_closed s) eqn:Ec; [intros H; pinv H; same_tac|].
+    destruct (send_some (v0 :: vs0) s) as [[[s1 k] rest']|] eqn:Es; [|intros H; pinv H; same_tac].
+    pose proof (send_some_shape _ s s1 k rest' OOk Ea Ec ltac:(quiet_tac) Es) as Hs.
+    destruct rest'; intros H; pinv H; try same_tac; (eapply shape_ext; [|exact Hs]); quiet_tac.
+  - (* SendM *)
+    destruct (s_alive s) eqn:Ea; cbn [negb orb]; [|intros H; pinv H; same_tac].
+    destruct (s_async s); [intros H; pinv H; same_tac|].
+    destruct vs as [|v0 vs0]; [intros H; pinv H; same_tac|].
+    destruct (s_closed s) eqn:Ec; [intros H; pinv H; same_tac|].
+    destruct (send_some (v0 :: vs0) s) as [[[s1 k] rest']|] eqn:Es; [|intros H; pinv H; same_tac].
+    pose proof (send_some_shape _ s s1 k rest' OOk Ea Ec ltac:(quiet_tac) Es) as Hs.
+    destruct rest'; intros H; pinv H; try same_tac; (eapply shape_ext; [|exact Hs]); quiet_tac.
+  - (* SClose *)
+    destruct (s_alive s) eqn:Ea; cbn [negb]; [|intros H; pinv H; same_tac].
+    destruct (tx_busy s); [intros H; pinv H; same_tac|].
+    destruct (s_closed s) eqn:Ec; intros H; pinv H; [same_tac|].
+    unfold sender_close_internal. rewrite proj_wake_all.
+    change (shape (proj s) OOk (with_sender (proj s) true true (s_taint s) true)).
+    apply Sh_sender; [quiet_tac|]. split; [exact Ea|]. left. cbn [proj c_closed c_taint]. intuition auto.
+  - (* SDrop *)
+    destruct (s_alive s) eqn:Ea; cbn [negb]; [|intros H; pinv H; same_tac].
+    destruct (tx_busy s); [intros H; pinv H; same_tac|].
+    intros H; pinv H. rewrite proj_release.
+    destruct (s_closed s) eqn:Ec.
+    + change (shape (proj s) OOk (with_sender (proj s) false true (s_taint s) (pdrop s))).
+      apply Sh_sender; [quiet_tac|]. split; [exact Ea|]. right. left. cbn [proj c_closed c_taint c_pdrop]. intuition auto.
+    + set (s1 := sender_close_internal s).
+      assert (Hp1 : proj s1 = with_sender (proj s) (s_alive s) (s_closed s) (s_taint s) true)
+        by (unfold s1, sender_close_internal; rewrite proj_wake_all; reflexivity).
+      assert (Hc : proj (set_sender s1 false true (s_async s1) (s_taint s1) (pdrop s1))
+                   = with_sender (proj s) false true (s_taint s) true).
+      { change (proj (set_sender s1 false true (s_async s1) (s_taint s1) (pdrop s1)))
+          with (with_sender (proj s1) false true (c_taint (proj s1)) (c_pdrop (proj s1))).
+        rewrite Hp1. reflexivity. }
+      rewrite Hc. apply Sh_sender; [quiet_tac|]. split; [exact Ea|]. right. left. cbn [proj c_taint]. intuition auto.
+  - (* SConv *)
+    destruct (s_alive s) eqn:Ea; cbn [negb]; [|intros H; pinv H; same_tac].
+    destruct (tx_busy s); [intros H; pinv H; same_tac|].
+    destruct (fixedm s) eqn:Ef; intros H; pinv H.
+    + assert (Hc : proj (set_sender s true (s_closed s) (negb (s_async s)) (s_taint s) (pdrop s)) = proj s)
+        by (unfold proj; cbn [set_sender fixedm cap log s_alive s_closed s_taint pdrop rxs]; rewrite Ea; reflexivity).
+      rewrite Hc. same_tac.
+    + change (shape (proj s) OOk (with_sender (proj s) true false (s_taint s || s_closed s) (pdrop s))).
+      apply Sh_sender; [quiet_tac|]. split; [exact Ea|]. right. right. cbn [proj c_fixed c_closed c_taint c_pdrop]. intuition auto.
+  - (* SObs *)
+    destruct (s_alive s); cbn [negb]; intros H; pinv H; same_tac.
+  - (* TryRecv *)
+    intros H. apply with_rx_inv in H. destruct H as [[-> ->]|(x & Hg & Hl & H)]; [same_tac|].
+    destruct (r_closed x) eqn:Ec; [pinv H; same_tac|].
+    destruct (try_recv_core r x s) as [s1 res] eqn:Et. pinv H.
+    apply recv_shape with (x := x); auto. quiet_tac.
+  - (* Recv *)
+    intros H. apply with_rx_inv in H. destruct H as [[-> ->]|(x & Hg & Hl & H)]; [same_tac|].
+    destruct (r_async x); [pinv H; same_tac|].
+    destruct (r_closed x) eqn:Ec; [pinv H; same_tac|].
+    destruct (try_recv_core r x s) as [s1 res] eqn:Et. pinv H.
+    apply recv_shape with (x := x); auto. quiet_tac.
+  - (* RecvT *)
+    intros H. apply with_rx_inv in H. destruct H as [[-> ->]|(x & Hg & Hl & H)]; [same_tac|].
+    destruct (r_async x); [pinv H; same_tac|].
+    destruct (r_closed x) eqn:Ec; [pinv H; same_tac|].
+    destruct (try_recv_core r x s) as [s1 res] eqn:Et. pinv H.
+    apply recv_shape with (x := x); auto. quiet_tac.
+  - (* TryRecvB *)
+    intros H. apply with_rx_inv in H. destruct H as [[-> ->]|(x & Hg & Hl & H)]; [same_tac|].
+    destruct (N.eqb n 0); [pinv H; same_tac|].
+    destruct (r_closed x) eqn:Ec; [pinv H; same_tac|].
+    destruct (try_recv_batch_core r x n s) as [s1 res] eqn:Et. pinv H.
+    apply recv_batch_shape with (x := x) (n := n); auto. quiet_tac.
+  - (* RecvB *)
+    intros H. apply with_rx_inv in H. destruct H as [[-> ->]|(x & Hg & Hl & H)]; [same_tac|].
+    destruct (r_async x); [pinv H; same_tac|].
+    destruct (N.eqb n 0); [pinv H; same_tac|].
+    destruct (r_closed x) eqn:Ec; [pinv H; same_tac|].
+    destruct (try_recv_batch_core r x n s) as [s1 res] eqn:Et. pinv H.
+    apply recv_batch_shape with (x := x) (n := n); auto. quiet_tac.
+  - (* RClose *)
+    intros H. apply with_rx_inv in H. destruct H as [[-> ->]|(x & Hg & Hl & H)]; [same_tac|].
+    destruct (r_closed x) eqn:Ec; pinv H; [same_tac|].
+    rewrite proj_wake_producer, proj_set_rx.
+    change (rxs s) with (c_rxs (proj s)). eapply Sh_rx_upd; eauto; [quiet_tac|].
+    split; [reflexivity|]. split; [reflexivity|]. left. intuition auto.
+  - (* RDrop *)
+    intros H. apply with_rx_inv in H. destruct H as [[-> ->]|(x & Hg & Hl & H)]; [same_tac|].
+    destruct (rx_busy s r); [pinv H; same_tac|].
+    destruct (r_closed x) eqn:Ec.
+    + rewrite Hg in H. pinv H. rewrite proj_release, proj_set_rx.
+      change (rxs s) with (c_rxs (proj s)). eapply Sh_rx_upd; eauto; [quiet_tac|].
+      split; [reflexivity|]. split; [reflexivity|]. right. left. cbn [r_reg r_closed r_taint r_live]. intuition auto.
+    + set (s1 := wake_producer (set_rx s r (rx_unreg x))) in *.
+      assert (Hp1 : proj s1 = with_rxs (proj s) (set (rxs s) r (rx_unreg x)))
+        by (unfold s1; rewrite proj_wake_producer; reflexivity).
+      assert (Hr1 : rxs s1 = set (rxs s) r (rx_unreg x))
+        by (change (c_rxs (proj s1) = set (rxs s) r (rx_unreg x)); rewrite Hp1; reflexivity).
+      rewrite Hr1, get_set_eq in H. pinv H. rewrite proj_release, proj_set_rx, Hp1, Hr1, set_set.
+      change (rxs s) with (c_rxs (proj s)).
+      change (with_rxs (with_rxs (proj s) (set (c_rxs (proj s)) r (rx_unreg x))))
+        with (with_rxs (proj s)).
+      eapply Sh_rx_upd; eauto; [quiet_tac|].
+      split; [reflexivity|]. split; [reflexivity|]. left. intuition auto.
+  - (* RClone *)
+    intros H. apply with_rx_inv in H. destruct H as [[-> ->]|(x & Hg & Hl & H)]; [same_tac|].
+    destruct (get (rxs s) c) eqn:Egc; [pinv H; same_tac|].
+    destruct (fixedm s && r_closed x) eqn:Eb; pinv H; rewrite proj_set_rx;
+      change (rxs s) with (c_rxs (proj s)); (eapply Sh_clone; eauto; [quiet_tac|]).
+    + apply andb_true_iff in Eb. destruct Eb as [Ef Ec].
+      split; [reflexivity|]. split; [reflexivity|]. split; [reflexivity|]. right. cbn [proj c_fixed]. intuition auto.
+    + split; [reflexivity|]. split; [reflexivity|]. split; [reflexivity|]. left.
+      cbn [r_reg r_closed r_taint proj c_fixed]. apply andb_false_iff in Eb. tauto.
+  - (* RConv *)
+    intros H. apply with_rx_inv in H. destruct H as [[-> ->]|(x & Hg & Hl & H)]; [same_tac|].
+    destruct (rx_busy s r); [pinv H; same_tac|].
+    destruct (fixedm s) eqn:Ef; pinv H; rewrite proj_set_rx;
+      change (rxs s) with (c_rxs (proj s)); (eapply Sh_rx_upd; eauto; [quiet_tac|]).
+    + split; [reflexivity|]. split; [reflexivity|]. right. left. cbn [r_reg r_closed r_taint r_live]. intuition auto.
+    + split; [reflexivity|]. split; [reflexivity|]. right. right. cbn [r_reg r_closed r_taint r_live proj c_fixed]. intuition auto.
+  - (* RObs *)
+    intros H. apply with_rx_inv in H. destruct H as [[-> ->]|(x & Hg & Hl & H)]; [same_tac|]. pinv H. same_tac.
+  - (* MkRecv *)
+    intros H. apply with_rx_inv in H. destruct H as [[-> ->]|(x & Hg & Hl & H)]; [same_tac|].
+    destruct (r_async x); [apply new_fut_shape in H; exact H | pinv H; same_tac].
+  - (* MkRecvB *)
+    intros H. apply with_rx_inv in H. destruct H as [[-> ->]|(x & Hg & Hl & H)]; [same_tac|].
+    destruct (r_async x); [apply new_fut_shape in H; exact H | pinv H; same_tac].
+  - destruct (s_alive s && s_async s); [apply new_fut_shape | intros H; pinv H; same_tac].
+  - destruct (s_alive s && s_async s); [apply new_fut_shape | intros H; pinv H; same_tac].
+  - destruct (s_alive s && s_async s); [apply new_fut_shape | intros H; pinv H; same_tac].
+  - (* Poll *)
+    destruct (get (futs s) f) as [x|]; [|intros H; pinv H; same_tac].
+    destruct (f_live x); [apply poll_shape | intros H; pinv H; same_tac].
+  - (* DropF *)
+    destruct (get (futs s) f) as [x|]; [|intros H; pinv H; same_tac].
+    destruct (f_live x); intros H; pinv H; same_tac.
+  - (* PollNext *)
+    intros H. apply with_rx_inv in H. destruct H as [[-> ->]|(x & Hg & Hl & H)]; [same_tac|].
+    destruct (r_async x); cbn [negb] in H; [|pinv H; same_tac].
+    destruct (rx_busy s r); [pinv H; same_tac|].
+    destruct (r_closed x) eqn:Ec; [pinv H; same_tac|].
+    destruct (try_recv_core r x s) as [s1 res] eqn:Et.
+    pose proof (recv_shape r x s s1 res OPending Hg Ec Et ltac:(quiet_tac)) as Hs.
+    destruct res; pinv H; rewrite ?proj_register; (eapply shape_ext; [|exact Hs]); intros r0; reflexivity.
+  - (* Snap *)
+    intros H; pinv H; same_tac.
 Qed.
